@@ -2,6 +2,7 @@ import ParryModel.C04.DriverClosed
 import ParryModel.C04.Composite
 import ParryModel.C04.Driver2D
 import ParryModel.C04.DriverGjk
+import ParryModel.C04.DriverGlue
 /-! C04 protocol handlers: the closed-form / primitive casts (`DriverClosed.lean`) and the composite-shape casts with the
 BVH pruning test (`Composite.lean`). -/
 namespace C04
@@ -13,6 +14,8 @@ def handler (fn : String) : Option Proto.Handler :=
     | some h => some h
     | none => match handler2D fn with
       | some h => some h
-      | none => handlerGjk fn
+      | none => match handlerGjk fn with
+        | some h => some h
+        | none => handlerGlue fn
 
 end C04
